@@ -20,8 +20,8 @@ static void run_client(const unsigned char* s, size_t n, const size_t* cuts, int
     size_t buffered = arrived - consumed;
     int can_call = !stopped && buffered >= wait && (buffered > 0 || wait == 0);
     if (can_call) {
-      unsigned char* blk = malloc(buffered ? buffered : 1);
-      unsigned char* win = buffered ? blk : blk + 1;
+      unsigned char* blk;
+      unsigned char* win = vh_exact_rot(buffered, &blk); /* a client may keep its unconsumed bytes at any address */
       memcpy(win, s + consumed, buffered);
       vh_ev_clear();
       va_reset_counters();
